@@ -139,7 +139,17 @@ def inventory(prog, bodies):
                 e = b.rec_call(t, bi)
                 sites.append(Site(b, bi, "index", mir.short(n).split(">::")[-1], list(e[2]) if e[0] == "call" else [e], e, t["exp"]))
             elif n.startswith("core::panicking::") or n.startswith("std::rt::begin_panic") or "panic_fmt" in n or "assert_failed" in n or "unreachable_display" in n:
-                sites.append(Site(b, bi, "panic", n.split("::")[-1], [], None, False))
+                # the condition whose failure leads here (`assert!(c)` lowers to a switch on c with the panic on one side): it is what tells one
+                # assertion of a function from another, so it goes into the site key
+                guard = []
+                for pb in b.preds(bi):
+                    pt = b.blocks[pb]["term"]
+                    if pt and pt["k"] == "switch" and not b.blocks[pb]["cleanup"]:
+                        try:
+                            guard.append(b.rec_operand(pt["discr"], pb, "T"))
+                        except Exception:
+                            pass
+                sites.append(Site(b, bi, "panic", n.split("::")[-1], guard[:1], None, False))
             else:
                 for k, cond in EXTERNAL_MAY_PANIC.items():
                     if cond is None:
